@@ -374,14 +374,16 @@ class _TextualFinder:
 
     def _get_occurrence_pattern(self, name):
         occurrence_pattern = _TextualFinder.any("occurrence", ["\\b" + name + "\\b"])
+        # The name is tried last: a string literal starts at its prefix, so for
+        # a name like `b`, `f` or `r` the prefix of b'...' must not match first.
         pattern = re.compile(
-            occurrence_pattern
-            + "|"
-            + self.comment_pattern
+            self.comment_pattern
             + "|"
             + self.string_pattern
             + "|"
             + self.f_string_pattern
+            + "|"
+            + occurrence_pattern
         )
         return pattern
 
